@@ -4,7 +4,7 @@ LEVEL = "other"
 
 def check(rep, tier):
     from contracts import rules_scalar, rules_exact
-    rules_scalar.run(rep, tier, kinds=("jvp",))
-    rules_exact.run(rep, tier, rules_exact.CLAUSE_PROPS["C02"])
+    rep.run(rules_scalar.run, rep, tier, kinds=("jvp",))
+    rep.run(rules_exact.run, rep, tier, rules_exact.CLAUSE_PROPS["C02"])
     from contracts import rules_numeric
-    rules_numeric.run(rep, tier, clauses=('N-jvp',), only_complex='real-only')
+    rep.run(rules_numeric.run, rep, tier, clauses=('N-jvp',), only_complex='real-only')
